@@ -131,6 +131,20 @@ def parse_block(s):
         if m:
             out.append(('decl', m.group(1), m.group(2), m.group(3)))
             continue
+        m = re.match(r'(double|int)\s+([A-Za-z_]\w*(?:\s*,\s*[A-Za-z_]\w*)*)$', st)
+        if m:
+            out.append(('declnoinit', m.group(1), [n.strip() for n in m.group(2).split(',')]))
+            continue
+        if re.match(r'assert\s*\(', st):
+            continue
+        m = re.match(r'const\s+Stencil\s*&\s*(\w+)\s*=\s*getStencil\s*\((.*)\)$', st)
+        if m:
+            out.append(('stencil', m.group(1), m.group(2)))
+            continue
+        m = re.match(r'([A-Z][A-Z_0-9]+)\s*\((.*)\)$', st)
+        if m:
+            out.append(('macrocall', m.group(1), [a.strip() for a in m.group(2).split(',')]))
+            continue
         m = re.match(r'(.+?)\s*(\+=|-=|\*=|(?<![=!<>])=(?!=))\s*(.*)$', st)
         if m:
             out.append(('write', m.group(1), m.group(2), m.group(3)))
@@ -149,6 +163,16 @@ class Ctx:
         self.reals = dict(real_names)
         self.bools = dict(bools)
         self.nodes = {}
+        self.mut = {}        # mutable locals declared without initialiser: name -> 'int' | 'double'
+        self.stencils = {}   # name -> Coq term of the stencil (list Z)
+        self.positions = {}  # StencilPosition enumerator -> index
+        self.get_stencil = None
+
+    def fork(self):
+        c = Ctx(self.arrays2, self.arrays1, self.own2, self.own1, self.ints, self.reals, self.bools)
+        c.nodes = dict(self.nodes); c.mut = dict(self.mut); c.stencils = dict(self.stencils)
+        c.positions = self.positions; c.get_stencil = self.get_stencil
+        return c
 
 
 def lit(txt):
@@ -194,6 +218,13 @@ def conv(e, cx, want):
             return '(%s %s %s)%%Z' % (conv(e[2], cx, 'int'), e[1], conv(e[3], cx, 'int'))
         if k == 'bin' and e[1] == '/':
             return '(Z.quot %s %s)' % (conv(e[2], cx, 'int'), conv(e[3], cx, 'int'))
+        if k == 'cond':
+            return '(if %s then %s else %s)' % (conv(e[1], cx, 'bool'), conv(e[2], cx, 'int'), conv(e[3], cx, 'int'))
+        if k == 'idx' and e[1][0] == 'id' and e[1][1] in cx.stencils and e[2][0] == 'id' and e[2][1].startswith('StencilPosition::'):
+            pos = e[2][1].split('::')[1]
+            if pos not in cx.positions:
+                raise TranslateError('unknown stencil position %s' % pos)
+            return '(stencil_slot %s %d)' % (cx.stencils[e[1][1]], cx.positions[pos])
         if k == 'call' and e[1][0] == 'mem' and grid_obj(e[1][1]):
             fn = e[1][2]
             if fn == 'nr' and not e[2]:
@@ -263,12 +294,56 @@ def grid_obj(e):
     return e[0] == 'id' and e[1] in ('grid', 'grid_')
 
 
+def assigned_muts(stmts, cx):
+    out = set()
+    for st in stmts:
+        if st[0] == 'write' and re.fullmatch(r'[A-Za-z_]\w*', st[1]) and st[1] in cx.mut:
+            out.add(st[1])
+        elif st[0] == 'if':
+            for _, blk in st[1]:
+                out |= assigned_muts(blk, cx)
+        elif st[0] == 'scope':
+            out |= assigned_muts(st[1], cx)
+    return out
+
+
 def emit_block(stmts, cx, ind):
     """Coq term of type list write for the statement list"""
     if not stmts:
         return '[]'
     st, rest = stmts[0], stmts[1:]
     pad = ' ' * ind
+    if st[0] == 'declnoinit':
+        for n in st[2]:
+            cx.mut[n] = st[1]
+            cx.ints.pop(n, None); cx.reals.pop(n, None); cx.nodes.pop(n, None)
+        return emit_block(rest, cx, ind)
+    if st[0] == 'stencil':
+        if cx.get_stencil is None:
+            raise TranslateError('getStencil used in a kernel without a stencil function')
+        cx.stencils[st[1]] = '(%s %s)' % (cx.get_stencil, conv(parse_expr(st[2]), cx, 'int'))
+        return emit_block(rest, cx, ind)
+    if st[0] == 'write' and re.fullmatch(r'[A-Za-z_]\w*', st[1]) and st[1] in cx.mut:
+        if st[2] != '=':
+            raise TranslateError('compound assignment to the local %s' % st[1])
+        ast = parse_expr(st[3])
+        name = st[1]
+        cx.ints.pop(name, None); cx.reals.pop(name, None); cx.nodes.pop(name, None)
+        if cx.mut[name] == 'double':
+            cx.reals[name] = conv(ast, cx, 'real')
+        else:
+            try:
+                cx.nodes[name] = conv(ast, cx, 'node')
+            except TranslateError:
+                cx.ints[name] = conv(ast, cx, 'int')
+        return emit_block(rest, cx, ind)
+    if st[0] == 'macrocall':
+        if st[1] != 'UPDATE_MATRIX_ELEMENT' or len(st[2]) != 5:
+            raise TranslateError('unknown macro call %s' % st[1])
+        _, off, row, col, val = st[2]
+        r = conv(parse_expr(row), cx, 'node'); c = conv(parse_expr(col), cx, 'node')
+        o = conv(parse_expr(off), cx, 'int'); v = conv(parse_expr(val), cx, 'real')
+        return '(((%s, %s), %s, (%s, %s)), %s)\n%s:: %s' % (r[0], r[1], o, c[0], c[1], v, pad, emit_block(rest, cx, ind))
     if st[0] == 'decl':
         _, ty, name, ex = st
         ast = parse_expr(ex)
@@ -307,17 +382,20 @@ def emit_block(stmts, cx, ind):
         val = conv(parse_expr(ex), cx, 'real')
         return '((%s, %s), W_%s_%s, %s)\n%s:: %s' % (tgt[0], tgt[1], l[1][1], kind, val, pad, emit_block(rest, cx, ind))
     if st[0] == 'scope':
-        return '(%s)\n%s++ %s' % (emit_block(st[1], cx, ind + 2), pad, emit_block(rest, cx, ind))
+        return '(%s)\n%s++ %s' % (emit_block(st[1], cx.fork(), ind + 2), pad, emit_block(rest, cx, ind))
     if st[0] == 'if':
         txt = ''
         closing = ''
         for cond, blk in st[1]:
             if cond is None:
-                txt += '(%s)' % emit_block(blk, cx, ind + 2)
+                txt += '(%s)' % emit_block(blk, cx.fork(), ind + 2)
                 break
-            txt += 'if %s\n%s then (%s)\n%s else ' % (conv(parse_expr(cond), cx, 'bool'), pad, emit_block(blk, cx, ind + 2), pad)
+            txt += 'if %s\n%s then (%s)\n%s else ' % (conv(parse_expr(cond), cx, 'bool'), pad, emit_block(blk, cx.fork(), ind + 2), pad)
         else:
             txt += '[]'
+        for blk in st[1]:
+            for n in assigned_muts(blk[1], cx):      # a local assigned inside a branch is undefined afterwards
+                cx.ints.pop(n, None); cx.reals.pop(n, None); cx.nodes.pop(n, None)
         return '(%s)\n%s++ %s' % (txt, pad, emit_block(rest, cx, ind))
     raise TranslateError('unknown statement %r' % (st,))
 
@@ -344,6 +422,95 @@ def gen_give(src):
              own2={'arr': 'arr', 'att': 'att', 'art': 'art', 'detDF': 'det'}, own1={'coeff_beta': 'beta'},
              int_names={'i_r': 'i', 'i_theta': 'j'}, real_names={}, bools={'DirBC_Interior': 'dirbc'})
     return emit_block(parse_block(body), cx, 4)
+
+
+def stencil_tables(hdr, positions_hdr):
+    pm = re.search(r'enum\s+class\s+StencilPosition\s*\{([^}]*)\}', positions_hdr)
+    if not pm:
+        raise TranslateError('enum StencilPosition not found')
+    pos = [p.strip() for p in pm.group(1).split(',') if p.strip()]
+    if any('=' in p for p in pos):
+        raise TranslateError('StencilPosition with explicit values')
+    tabs = {}
+    for m in re.finditer(r'const\s+Stencil\s+(\w+)\s*=\s*\{([^}]*)\}', hdr):
+        vals = [int(v) for v in m.group(2).replace('\n', ' ').split(',') if v.strip()]
+        if len(vals) != len(pos):
+            raise TranslateError('stencil %s has %d entries' % (m.group(1), len(vals)))
+        tabs[m.group(1)] = vals
+    return {p: i for i, p in enumerate(pos)}, tabs
+
+
+def return_chain(body, cx, want, names=None):
+    """if (c) { return X; } else if ... ; a trailing throw = no value"""
+    stmts = []
+    i = 0
+    txt = ''
+    decls = ''
+    # leading declarations  const int name = expr;
+    while True:
+        i = skip_ws(body, i)
+        m = re.match(r'(?:const\s+)?int\s+(\w+)\s*=\s*([^;]*);', body[i:])
+        if m:
+            decls += 'let %s : Z := %s in ' % (m.group(1), conv(parse_expr(m.group(2)), cx, 'int'))
+            cx.ints[m.group(1)] = m.group(1)
+            i += m.end()
+            continue
+        m = re.match(r'(?:assert\s*\([^;]*\)\s*;|int\s+\w+\s*,\s*\w+\s*;|grid_\.multiIndex\s*\([^;]*\)\s*;)', body[i:])
+        if m:
+            i += m.end()
+            continue
+        break
+    n = 0
+    while True:
+        i = skip_ws(body, i)
+        m = re.match(r'(?:else\s+)?if\s*\(', body[i:])
+        if not m:
+            break
+        c = match_braces(body, i + m.end() - 1, '(', ')')
+        j = skip_ws(body, i + m.end() + len(c) + 1)
+        blk = match_braces(body, j)
+        r = re.fullmatch(r'\s*return\s+(\w+)\s*;\s*', blk)
+        if not r:
+            raise TranslateError('branch is not a single return: %r' % blk[:50])
+        val = r.group(1)
+        if names is not None:
+            if val not in names:
+                raise TranslateError('unknown stencil %s' % val)
+            val = 'gen_' + val
+        else:
+            val = conv(('id', val), cx, 'int')
+        txt += 'if %s then %s else ' % (conv(parse_expr(c), cx, 'bool'), val)
+        n += 1
+        i = j + len(blk) + 2
+    rest = body[i:].strip()
+    if not re.fullmatch(r'throw\s+std::out_of_range\s*\([^;]*\)\s*;', rest) or n == 0:
+        raise TranslateError('return chain outside the grammar: %r' % rest[:60])
+    return decls + txt + ('[]' if names is not None else '(-1)%Z')
+
+
+def gen_assembly_take(repo):
+    d = os.path.join(repo, 'src/DirectSolver/DirectSolverTakeCustomLU')
+    hdr = strip_comments(open(os.path.join(repo, 'include/DirectSolver/DirectSolverTakeCustomLU/directSolverTakeCustomLU.h')).read())
+    pos, tabs = stencil_tables(hdr, strip_comments(open(os.path.join(repo, 'include/Stencil/stencil.h')).read()))
+    ms = strip_comments(open(os.path.join(d, 'matrixStencil.cpp')).read())
+    mk = lambda: Ctx(arrays2={'arr': 'arr', 'att': 'att', 'art': 'art', 'detDF': 'det'}, arrays1={'coeff_beta': 'beta'}, own2={}, own1={},
+                     int_names={'i_r': 'i', 'i_theta': 'j'}, real_names={}, bools={'DirBC_Interior': 'dirbc', 'DirBC_Interior_': 'dirbc'})
+    get_st = return_chain(find_function_body(ms, r'const\s+Stencil&\s+DirectSolverTakeCustomLU::getStencil\s*\('), mk(), 'stencil', tabs)
+    get_sz = return_chain(find_function_body(ms, r'int\s+DirectSolverTakeCustomLU::getStencilSize\s*\('), mk(), 'int')
+    src = open(os.path.join(d, 'buildSolverMatrix.cpp')).read()
+    params, body = macro_body(src, 'NODE_BUILD_SOLVER_MATRIX_TAKE')
+    want = ['i_r', 'i_theta', 'grid', 'DirBC_Interior', 'solver_matrix', 'arr', 'att', 'art', 'detDF', 'coeff_beta']
+    if params != want:
+        raise TranslateError('NODE_BUILD_SOLVER_MATRIX_TAKE parameters changed: %r' % (params,))
+    up, ub = macro_body(src, 'UPDATE_MATRIX_ELEMENT')
+    if up != ['matrix', 'offset', 'row', 'col', 'val'] or ' '.join(ub.split()) != \
+            'do { matrix.row_nz_index(row, offset) = col; matrix.row_nz_entry(row, offset) = val; } while (0)':
+        raise TranslateError('UPDATE_MATRIX_ELEMENT is not  row_nz_index(row, offset) = col; row_nz_entry(row, offset) = val')
+    cx = mk()
+    cx.positions = pos
+    cx.get_stencil = 'gen_take_get_stencil'
+    term = emit_block(parse_block(body), cx, 4)
+    return pos, tabs, get_st, get_sz, term
 
 
 def give_call_sites(src):
@@ -451,6 +618,7 @@ def main():
         take = gen_take(take_src)
         give = gen_give(give_src)
         rhs = gen_rhs(open(files['rhs']).read())
+        apos, atabs, aget, asz, aterm = gen_assembly_take(REPO)
     except TranslateError as ex:
         # leave a file that does not compile: the tie is then reported as broken, with the reason
         with open(OUT, 'w') as f:
@@ -465,6 +633,15 @@ def main():
         out += '\n  (* discretize_rhs_f, loop nest  for (%s) for (%s) *)\n' % (oh, ih)
         out += '  Definition gen_rhs_%s_visits (i j : Z) : bool := %s.\n' % (nm, dom)
         out += '  Definition gen_rhs_%s (rhs_f : Z -> Z -> S) (i j : Z) : list gwrite :=\n    %s.\n' % (nm, term)
+    out += '\n  (* ---- direct solver (take): stencil slot tables, getStencil, getStencilSize, NODE_BUILD_SOLVER_MATRIX_TAKE ---- *)\n'
+    out += '  (* StencilPosition: %s *)\n' % ', '.join('%s = %d' % (p, i) for p, i in sorted(apos.items(), key=lambda x: x[1]))
+    for nm, vals in atabs.items():
+        out += '  Definition gen_%s : list Z := [%s]%%Z.\n' % (nm, '; '.join(str(v) for v in vals))
+    out += '  Definition stencil_slot (st : list Z) (p : nat) : Z := List.nth p st (-1)%Z.\n'
+    out += '  Definition gen_take_get_stencil (i : Z) : list Z :=\n    %s.\n' % aget
+    out += '  Definition gen_take_get_stencil_size (i : Z) : Z :=\n    %s.\n' % asz
+    out += '  Definition mwrite := ((((Z * Z) * Z) * (Z * Z)) * S)%type.    (* row node, slot, column node, value *)\n'
+    out += '  Definition gen_build_solver_matrix_take (i j : Z) : list mwrite :=\n    %s.\n' % aterm
     out += 'End StencilGen.\n'
     with open(OUT, 'w') as f:
         f.write(out)
